@@ -123,10 +123,11 @@ Lemma link_sk_tryborrow : C02_Gen.sk_tryborrow =
    "select"; "case:"; "send:l.pool"; "return"; "default:"; "return"]%string.
 Proof. reflexivity. Qed.
 
-(* Limit.Return: non-blocking receive *)
+(* Limit.Return: capacity-0 guard (fix D19: a zero limit has no borrower, so every Return is an error;
+   MaxConnsHandler only builds a Limit for n > 0), then the non-blocking receive *)
 Lemma link_sk_return : C02_Gen.sk_return =
   [
-   "select"; "case:"; "recv:l.pool"; "return"; "default:"; "return"]%string.
+   "cap"; "return"; "select"; "case:"; "recv:l.pool"; "return"; "default:"; "return"]%string.
 Proof. reflexivity. Qed.
 
 (* UnaryTimeoutInterceptor: same shape as the REST one; handler result assigned under lock before close(done) *)
